@@ -93,6 +93,15 @@ impl Check for C14 {
                             one(run, si, l, "fill_rect-vs-path-fill", a.clone(), b, si == 9 && ri == 1234 && alpha == 0.5);
                             let c = Scene { w, h, dst: dst.clone(), ops: vec![cover_clip(w, h), fast.clone(), Op::PopClip] };
                             one(run, si, l, "fill_rect-vs-under-covering-clip", a, c, false);
+                            // antialiasing off: the fast route does not depend on it, the general route
+                            // goes through the aliased mask blitter; on integer rectangles both agree
+                            if ri % 3 == si % 3 {
+                                let on = Opts { aa: false, ..o };
+                                let fast_n = Op::FillRect(x as f32, y as f32, rw as f32, rh as f32, src.clone(), on);
+                                let general_n = Op::Fill(PathSpec::rect(x as f32, y as f32, rw as f32, rh as f32), src.clone(), on);
+                                one(run, si, l, "fill_rect-vs-path-fill-aliased", Scene { w, h, dst: dst.clone(), ops: vec![fast_n.clone()] }, Scene { w, h, dst: dst.clone(), ops: vec![general_n] }, false);
+                                one(run, si, l, "fill_rect-vs-under-covering-clip-aliased", Scene { w, h, dst: dst.clone(), ops: vec![fast_n.clone()] }, Scene { w, h, dst: dst.clone(), ops: vec![cover_clip(w, h), fast_n, Op::PopClip] }, false);
+                            }
                             // the same equivalence while drawing into a layer: a full-size one, and one
                             // narrower than the surface whose outer clip has been popped again ("no clip")
                             if ri % 7 == (si % 7) {
@@ -121,7 +130,12 @@ impl Check for C14 {
                 for dst in [Dst::White, Dst::Distinct, Dst::Zero] {
                     let a = Scene { w, h, dst: dst.clone(), ops: vec![Op::Clear(DISTINCT16[ci])] };
                     let b = Scene { w, h, dst: dst.clone(), ops: vec![cover_clip(w, h), Op::Clear(DISTINCT16[ci]), Op::PopClip] };
-                    one(run, 5000 + ci, l, "clear-vs-under-covering-clip", a, b, ci == 3);
+                    one(run, 5000 + ci, l, "clear-vs-under-covering-clip", a.clone(), b, ci == 3);
+                    // covering clips far larger than the surface
+                    for (x0, y0, x1, y1) in [(-5, -5, w + 5, h + 5), (0, 0, 32768, h), (-32769, 0, w, h + 1), (-40000, -40000, 40000, 40000), (0, 0, 1 << 29, 1 << 29), (i32::MIN, i32::MIN, i32::MAX, i32::MAX)] {
+                        let big = Scene { w, h, dst: dst.clone(), ops: vec![Op::PushClipRect(x0, y0, x1, y1), Op::Clear(DISTINCT16[ci]), Op::PopClip] };
+                        one(run, 5000 + ci, l, "clear-vs-under-covering-clip", a.clone(), big, false);
+                    }
                     // with a non-identity transform set (clear ignores it on both routes)
                     let a2 = Scene { w, h, dst: dst.clone(), ops: vec![Op::SetTransform([2., 0., 0., 2., 1., 1.]), Op::Clear(DISTINCT16[ci])] };
                     let b2 = Scene { w, h, dst: dst.clone(), ops: vec![Op::SetTransform([2., 0., 0., 2., 1., 1.]), cover_clip(w, h), Op::Clear(DISTINCT16[ci]), Op::PopClip] };
